@@ -24,49 +24,53 @@ Section CTR.
   Variable O : BlockOracle.
   Hypothesis Obytes : forall k b, all_bytes (bo_enc O k b) = true.
 
-  Definition ctr_state := (list Z * list Z * list Z * Z * list Z)%type.
+  Definition ctr_state := (list Z * list Z * list Z * Z * list Z * list Z)%type.
 
   Definition ctr_loop (st : AESCTR) (n : Z) : res ctr_state :=
     while_fuel (Z.to_nat (n + 1))
-      (fun '(mask, self_rijndael, self_IV, self__counter_bytes, self__counter) => zlen mask <? n)
-      (fun '(mask, self_rijndael, self_IV, self__counter_bytes, self__counter) =>
+      (fun '(mask, self_rijndael, self_IV, self__counter_bytes, self__counter, self__keystream) => zlen mask <? n)
+      (fun '(mask, self_rijndael, self_IV, self__counter_bytes, self__counter, self__keystream) =>
          let mask := mask ++ bo_enc O self_rijndael self__counter in
-         self__ <- ctr_counter_update O (mkAESCTR self_rijndael self_IV self__counter_bytes self__counter) ;;
+         self__ <- ctr_counter_update O (mkAESCTR self_rijndael self_IV self__counter_bytes self__counter self__keystream) ;;
          let self_rijndael := ctr_rijndael self__ in
          let self_IV := ctr_IV self__ in
          let self__counter_bytes := ctr__counter_bytes self__ in
          let self__counter := ctr__counter self__ in
-         Ok (mask, self_rijndael, self_IV, self__counter_bytes, self__counter))
-      ([], ctr_rijndael st, ctr_IV st, ctr__counter_bytes st, ctr__counter st).
+         let self__keystream := ctr__keystream self__ in
+         Ok (mask, self_rijndael, self_IV, self__counter_bytes, self__counter, self__keystream))
+      (ctr__keystream st, ctr_rijndael st, ctr_IV st, ctr__counter_bytes st, ctr__counter st, ctr__keystream st).
 
+  (* the key stream (what is left from the previous call, then fresh blocks) depends on the data only through its length;
+     the unused part is kept in the object *)
   Lemma ctr_encrypt_shape st m :
     ctr_encrypt O st m =
     (r <- ctr_loop st (zlen m) ;;
-     let '(mask, a, b, c, d) := r in
-     t <- mk_bytes (map (fun '(i, j) => Z.lxor i j) (combine m mask)) ;; Ok (mkAESCTR a b c d, t)).
+     let '(mask, a, b, c, d, _) := r in
+     t <- mk_bytes (map (fun '(i, j) => Z.lxor i j) (combine m mask)) ;;
+     Ok (mkAESCTR a b c d (py_slice mask (Some (zlen m)) None), t)).
   Proof.
     unfold ctr_encrypt, ctr_loop.
-    destruct (while_fuel _ _ _ _) as [[[[[mask a] b] c] d]|e]; reflexivity.
+    destruct (while_fuel _ _ _ _) as [[[[[[mask a] b] c] d] k]|e]; reflexivity.
   Qed.
 
   Lemma ctr_decrypt_is_encrypt st m : ctr_decrypt O st m = ctr_encrypt O st m.
   Proof.
-    unfold ctr_decrypt. destruct st as [a b c d]. cbn [ctr_rijndael ctr_IV ctr__counter_bytes ctr__counter].
-    destruct (ctr_encrypt O (mkAESCTR a b c d) m) as [[st' out]|e].
+    unfold ctr_decrypt. destruct st as [a b c d k]. cbn [ctr_rijndael ctr_IV ctr__counter_bytes ctr__counter ctr__keystream].
+    destruct (ctr_encrypt O (mkAESCTR a b c d k) m) as [[st' out]|e].
     - destruct st'. reflexivity.
     - reflexivity.
   Qed.
 
-  Lemma ctr_loop_mask st n r : ctr_loop st n = Ok r ->
-    let '(mask, _, _, _, _) := r in n <= zlen mask /\ all_bytes mask = true.
+  Lemma ctr_loop_mask st n r : all_bytes (ctr__keystream st) = true -> ctr_loop st n = Ok r ->
+    let '(mask, _, _, _, _, _) := r in n <= zlen mask /\ all_bytes mask = true.
   Proof.
-    intros H. unfold ctr_loop in H.
-    eapply (while_fuel_inv (fun s : ctr_state => let '(mask, _, _, _, _) := s in all_bytes mask = true)) in H.
-    - destruct H as [P C]. destruct r as [[[[mask a] b] c] d]. split; [|exact P]. apply Z.ltb_ge in C. exact C.
-    - intros [[[[mask a] b] c] d] t Hm _ Hb. cbv beta iota zeta in Hb.
-      destruct (ctr_counter_update O (mkAESCTR a b c d)) as [s2|e]; cbn [bind] in Hb; [|discriminate].
+    intros Bk H. unfold ctr_loop in H.
+    eapply (while_fuel_inv (fun s : ctr_state => let '(mask, _, _, _, _, _) := s in all_bytes mask = true)) in H.
+    - destruct H as [P C]. destruct r as [[[[[mask a] b] c] d] k]. split; [|exact P]. apply Z.ltb_ge in C. exact C.
+    - intros [[[[[mask a] b] c] d] k] t Hm _ Hb. cbv beta iota zeta in Hb.
+      destruct (ctr_counter_update O (mkAESCTR a b c d k)) as [s2|e]; cbn [bind] in Hb; [|discriminate].
       injection Hb as <-. rewrite all_bytes_app, Hm, Obytes. reflexivity.
-    - reflexivity.
+    - exact Bk.
   Qed.
 
   Lemma xor_map_length (a b : list Z) : zlen a <= zlen b ->
@@ -83,14 +87,14 @@ Section CTR.
   Qed.
 
   (* encrypting twice from the same counter state gives the data back *)
-  Lemma ctr_involution st m st1 c : all_bytes m = true ->
+  Lemma ctr_involution st m st1 c : all_bytes (ctr__keystream st) = true -> all_bytes m = true ->
     ctr_encrypt O st m = Ok (st1, c) ->
     ctr_encrypt O st c = Ok (st1, m) /\ zlen c = zlen m /\ all_bytes c = true.
   Proof.
-    intros Bm H. rewrite ctr_encrypt_shape in H.
+    intros Bk Bm H. rewrite ctr_encrypt_shape in H.
     destruct (ctr_loop st (zlen m)) as [r|e] eqn:EL; cbn [bind] in H; [|discriminate].
-    pose proof (ctr_loop_mask st (zlen m) r EL) as HM.
-    destruct r as [[[[mask a] b] cc] d]. destruct HM as [Hlen Bmask].
+    pose proof (ctr_loop_mask st (zlen m) r Bk EL) as HM.
+    destruct r as [[[[[mask a] b] cc] d] k]. destruct HM as [Hlen Bmask].
     unfold mk_bytes in H.
     destruct (all_bytes (map (fun '(i, j) => Z.lxor i j) (combine m mask))) eqn:Bc; cbn [bind] in H; [|discriminate].
     injection H as <- <-.
@@ -99,6 +103,11 @@ Section CTR.
     rewrite ctr_encrypt_shape, Lc, EL. cbn [bind].
     rewrite xor_map_involutive by exact Hlen. unfold mk_bytes. rewrite Bm. reflexivity.
   Qed.
+
+  (* assigning the counter property (what AES-GCM and AES-CCM do for every record) drops the unused key stream *)
+  Lemma ctr_set_counter_drops st c :
+    ctr_set_counter O st c = mkAESCTR (ctr_rijndael st) (ctr_IV st) (ctr__counter_bytes st) c [].
+  Proof. reflexivity. Qed.
 End CTR.
 
 (* ---- GCM ------------------------------------------------------------------------------------ *)
@@ -167,7 +176,8 @@ Section GCM.
     2:{ split; intros [x H]; [|discriminate]. destruct (zlen c <? 16); [discriminate|].
         destruct (gcm_auth O _ _ a mask); cbn [bind] in H; [|discriminate].
         destruct (negb (list_eqb _ _)); discriminate. }
-    set (ctr2 := mkAESCTR (ctr_rijndael ctr) (ctr_IV ctr) (ctr__counter_bytes ctr) cb2).
+    set (ctr2 := ctr_set_counter O ctr cb2).
+    assert (Bk2 : all_bytes (ctr__keystream ctr2) = true) by reflexivity.
     split.
     - (* open -> seal *)
       intros [g1 H]. destruct (zlen c <? 16) eqn:E16; [discriminate|]. apply Z.ltb_ge in E16.
@@ -181,7 +191,7 @@ Section GCM.
       destruct (ctr_encrypt O ctr2 ct) as [[ctr3 p']|e] eqn:EC; cbn [bind fst snd] in H; [|discriminate].
       injection H as <- ->.
       assert (Bct : all_bytes ct = true) by (apply all_bytes_firstn; exact Bc).
-      destruct (ctr_involution O Obytes ctr2 ct ctr3 p Bct EC) as [EI _].
+      destruct (ctr_involution O Obytes ctr2 ct ctr3 p Bk2 Bct EC) as [EI _].
       rewrite EI. cbn [bind fst snd].
       rewrite (gcm_auth_indep k ctr3 ctr tbl), EA. cbn [bind].
       eexists. f_equal. f_equal. rewrite <- ET. unfold ct, tg. apply firstn_skipn.
@@ -191,7 +201,7 @@ Section GCM.
       destruct (gcm_auth O (mkAESGCM k ctr3 tbl) ct a mask) as [t2|e] eqn:EA; cbn [bind] in H; [|discriminate].
       injection H as <- <-.
       pose proof (gcm_auth_len _ _ _ _ _ EA) as Lt.
-      destruct (ctr_involution O Obytes ctr2 p ctr3 ct Bp EC) as [EI [Lc Bct]].
+      destruct (ctr_involution O Obytes ctr2 p ctr3 ct Bk2 Bp EC) as [EI [Lc Bct]].
       assert (Lz : zlen (ct ++ t2) = zlen ct + 16) by (rewrite zlen_app; unfold zlen; lia).
       destruct (zlen (ct ++ t2) <? 16) eqn:E16; [pose proof (zlen_nonneg ct); lia|].
       pose proof (py_slice_last (ct ++ t2) 16 ltac:(pose proof (zlen_nonneg ct); lia)) as S1.
